@@ -91,6 +91,12 @@ def oracle(run, reqs):
             allowed = 0 if first.where == GAP else 1
         if len(later) > allowed:
             raise Violation('step_started_after_kill', n=len(later), **f)
+        if first.act == sched.KILL and first.where != GAP:
+            # a kill issued by a listener during the transition at the end of a step is carried out at that very step
+            # boundary: the state that has just been entered is not executed any more
+            ran = [t for t in programs.TRACE[first.pre['trace_len']:] if t[1] == 'enter']
+            if ran:
+                raise Violation('user_step_ran_after_kill', steps=[t[0] + ':' + t[1] for t in ran][:6], **f)
         if first.act == sched.KILL and first.where == GAP:
             # independent of state entries: no step function may be entered after a kill requested between callbacks
             # (a step in flight may finish its awaits; a process that was not stepping is killed at once)
@@ -237,7 +243,7 @@ RULE = ('paths over (program, K requests incl. >= 1 kill/cancel, placement, text
 SOLVER_ROLE = 'selector role for placements/actions; data role for the kill text (killed_msg compared symbolically with the first kill text)'
 EXPLANATION = 'kill is never lost / never raises / reports truthfully / text recorded; future().cancel() == kill; final probing kill from every live end configuration'
 ASSUMPTIONS = ['environment policy at idle ticks: play a paused process, resume a waiting one / complete its awaited future',
-               'a kill issued from inside a listener notification (mid-transition) may let at most the one step that is being entered run']
+               'a kill issued from inside a listener notification (mid-transition) takes effect at that step boundary: the state being entered is not executed']
 REQUIRED_WITNESSES = ['restored_process', 'future_cancel_killed', 'kill_during_step', 'kill_from_listener', 'kill_while_paused', 'kill_while_waiting', 'kill_returned_future']
 LEVEL_TEXT = ('bounded exhaustive symbolic exploration of schedules containing a kill (or future cancel) against every other control request: '
               'kill never raises, the process ends KILLED before any further step starts, returned value/future truthful, text recorded, and no live end configuration is unkillable')
